@@ -137,8 +137,14 @@ def run_one(args):
 
 def run_cases(cases, root='/repo', jobs=16):
     if jobs > 1 and len(cases) > 1:
-        with concurrent.futures.ProcessPoolExecutor(max_workers=jobs) as ex:
-            return list(ex.map(run_one, [(c, root) for c in cases]))
+        # workers are replaced after a few cases: the analyser keeps per-tree caches that are never needed again once a variant
+        # is done, and a long run of several hundred variants in one process would otherwise grow without bound
+        out = []
+        step = jobs * 4
+        for k in range(0, len(cases), step):
+            with concurrent.futures.ProcessPoolExecutor(max_workers=jobs) as ex:
+                out.extend(ex.map(run_one, [(c, root) for c in cases[k:k + step]]))
+        return out
     return [run_one((c, root)) for c in cases]
 
 
